@@ -84,6 +84,194 @@ type collRunner struct {
 	cf    *lib.CasesFile
 	total int
 	dcoq  int
+	// tieAmbiguous: also compare with the model the histories in which Equals and structural equality of a compared
+	// pair differ (a hash entry against its two element array, two hashes with the same entries in another order):
+	// the Go reference takes no side there (collh/ref.go), the model does (Coll.v: keq = veq, property C07)
+	tieAmbiguous bool
+}
+
+func collTieableModuloKeys(h *collh.History) bool {
+	if h.Unclean {
+		return false
+	}
+	for _, o := range h.Outs {
+		if len(o.Err) > 5 && o.Err[:5] == "other" {
+			return false
+		}
+	}
+	return true
+}
+
+// lawCases counts, per history, the cases the theorems of Properties/C09.v (Array / Hash half) talk about, so that
+// the input distribution shows that every interesting case of every law occurs.
+func (r *collRunner) lawCases(h *collh.History) {
+	seen := map[string]bool{}
+	hit := func(k string) {
+		if !seen[k] {
+			seen[k] = true
+			r.res.Count("coll.law." + k)
+		}
+	}
+	val := func(i int) *collh.PV {
+		if i < 0 || i >= len(h.Outs) || h.Outs[i].V == nil {
+			return collh.U()
+		}
+		return h.Outs[i].V
+	}
+	hasKey := func(hv, k *collh.PV) bool {
+		for _, e := range hv.L {
+			if collh.Veq(e.L[0], k) {
+				return true
+			}
+		}
+		return false
+	}
+	nested := func(k *collh.PV) string {
+		switch k.K {
+		case "h":
+			return "hash"
+		case "e":
+			return "entry"
+		case "a":
+			for _, c := range k.L {
+				if c.K == "h" || c.K == "a" || c.K == "e" {
+					return "nested-array"
+				}
+			}
+			return "array"
+		}
+		return ""
+	}
+	for i, o := range h.Ops {
+		if o.R >= i {
+			continue
+		}
+		recv := val(o.R)
+		if recv.K == "h" {
+			for _, e := range recv.L {
+				if n := nested(e.L[0]); n != "" {
+					hit("hash-with-" + n + "-key")
+				}
+			}
+		}
+		switch o.Kind {
+		case "Merge", "AddAll", "Add":
+			if recv.K != "h" || o.X >= i {
+				continue
+			}
+			arg := val(o.X)
+			var es []*collh.PV
+			switch {
+			case arg.K == "h":
+				es = arg.L
+			case arg.K == "e":
+				es = []*collh.PV{arg}
+			case o.Kind == "Add" && arg.K == "a" && len(arg.L) == 2:
+				es = []*collh.PV{collh.En(arg.L[0], arg.L[1])}
+			default:
+				continue
+			}
+			ex, nw := 0, 0
+			for _, e := range es {
+				if hasKey(recv, e.L[0]) {
+					ex++
+					for _, f := range recv.L {
+						if collh.Veq(f.L[0], e.L[0]) && !f.L[0].Equal(e.L[0]) {
+							hit("merge.replaces-equal-but-not-identical-key")
+						}
+					}
+				} else {
+					nw++
+				}
+			}
+			switch {
+			case ex > 0 && nw > 0:
+				hit("merge.existing-and-new-keys")
+			case ex > 0:
+				hit("merge.existing-keys-only")
+			case nw > 0:
+				hit("merge.new-keys-only")
+			}
+			if nw > 1 {
+				hit("merge.several-new-keys-in-argument-order")
+			}
+		case "Delete":
+			if recv.K != "h" || o.X >= i {
+				continue
+			}
+			k := val(o.X)
+			if hasKey(recv, k) {
+				hit("delete.present-key")
+				if len(recv.L) > 1 && !collh.Veq(recv.L[len(recv.L)-1].L[0], k) {
+					hit("delete.present-key-not-last")
+				}
+			} else {
+				hit("delete.absent-key")
+			}
+		case "DeleteAll":
+			if recv.K != "h" || o.X >= i {
+				continue
+			}
+			ks := val(o.X)
+			if ks.K != "a" && ks.K != "h" && ks.K != "e" {
+				continue
+			}
+			hits, repeatedPresent, absent := 0, false, false
+			for a, k := range ks.L {
+				if hasKey(recv, k) {
+					hits++
+					for _, k2 := range ks.L[:a] {
+						if collh.Veq(k, k2) {
+							repeatedPresent = true
+						}
+					}
+				} else {
+					absent = true
+				}
+			}
+			if repeatedPresent {
+				hit("deleteall.present-key-named-twice")
+				if hits >= len(recv.L) {
+					hit("deleteall.present-key-named-twice.hits>=len")
+				}
+				if hits > len(recv.L) {
+					hit("deleteall.present-key-named-twice.hits>len")
+				}
+			}
+			if absent && hits > 0 {
+				hit("deleteall.present-and-absent-keys")
+			}
+			if hits == 0 && len(ks.L) > 0 {
+				hit("deleteall.absent-keys-only")
+			}
+		case "Get", "Includes":
+			if recv.K != "h" || o.X >= i {
+				continue
+			}
+			if hasKey(recv, val(o.X)) {
+				hit("lookup.present-key")
+			} else {
+				hit("lookup.absent-key")
+			}
+			if n := nested(val(o.X)); n != "" {
+				hit("lookup." + n + "-key")
+			}
+		case "Unique":
+			if recv.K == "a" {
+				for a := range recv.L {
+					for _, y := range recv.L[:a] {
+						if collh.Veq(recv.L[a], y) {
+							hit("unique.array-with-equal-elements")
+						}
+					}
+				}
+			}
+		case "Equals":
+			if o.X < i && recv.K == "h" && val(o.X).K == "h" && collh.Veq(recv, val(o.X)) && !recv.Equal(val(o.X)) {
+				hit("equals.hashes-equal-in-another-order")
+			}
+		}
+	}
 }
 
 func (r *collRunner) check(ops []collh.Op, toCoq bool, family string) {
@@ -94,6 +282,7 @@ func (r *collRunner) check(ops []collh.Op, toCoq bool, family string) {
 	for _, o := range ops {
 		r.res.Count("coll.op." + o.Kind)
 	}
+	r.lawCases(h)
 	for _, o := range h.Outs {
 		if o.Err != "" {
 			r.res.Count("coll.result.error." + o.Err)
@@ -110,7 +299,7 @@ func (r *collRunner) check(ops []collh.Op, toCoq bool, family string) {
 	if bad {
 		r.res.Violate(collViolation(h))
 	}
-	if (toCoq && collTieable(h)) || (bad && r.dcoq < 20) {
+	if (toCoq && (collTieable(h) || (r.tieAmbiguous && collTieableModuloKeys(h)))) || (bad && r.dcoq < 20) {
 		if bad {
 			r.dcoq++
 		}
@@ -155,6 +344,9 @@ func runColl(cfg *lib.Config, res *lib.Result, rng *lib.Rng) {
 	literals(r)
 	hashChains(r)
 	arrayChains(r)
+	deleteAllLists(r)
+	nestedKeys(r)
+	equalNotIdenticalKeys(r)
 	n, coq := 20000, 400
 	if cfg.Thorough() {
 		n, coq = 400000, 5000
@@ -239,6 +431,8 @@ func hashChains(r *collRunner) {
 	letters = append(letters,
 		collh.Op{Kind: "DeleteAll", X: lit(A(S("a"), S("c")))},
 		collh.Op{Kind: "DeleteAll", X: lit(A(I(1), S("b"), A(S("a"))))},
+		collh.Op{Kind: "DeleteAll", X: lit(A(S("a"), S("a")))},
+		collh.Op{Kind: "DeleteAll", X: lit(A(S("c"), S("a"), S("c")))},
 		collh.Op{Kind: "Merge", X: lit(H(E(S("b"), I(7)), E(S("d"), I(8))))},
 		collh.Op{Kind: "Merge", X: lit(H(E(A(S("a")), I(7)), E(S("a"), I(8)), E(I(1), I(9))))},
 		collh.Op{Kind: "Slice", I: 0, J: 1},
@@ -334,4 +528,145 @@ func arrayChains(r *collRunner) {
 	rec(pre, start, 0)
 	r.res.Extra["coll_array_chain_sequences"] = idx
 	r.res.Extra["coll_array_chain_max_len"] = maxLen
+}
+
+// deleteAllLists: every hash over the keys a, b, c in five orders x every key list of at most 3 keys over
+// {a, b, c, z} (keys named twice and three times, absent keys, every count of hits against every length),
+// passed as an array and - the keys of a hash - as a hash; the result is observed by Len, Keys and a lookup of
+// every key.
+func deleteAllLists(r *collRunner) {
+	I, S, A, E, H := collh.In, collh.St, collh.Ar, collh.En, collh.Ha
+	hashes := []*collh.PV{
+		H(), H(E(S("a"), I(1))), H(E(S("a"), I(1)), E(S("b"), I(2))), H(E(S("b"), I(2)), E(S("a"), I(1))),
+		H(E(S("a"), I(1)), E(S("b"), I(2)), E(S("c"), I(3))), H(E(S("c"), I(3)), E(S("a"), I(1)), E(S("b"), I(2))),
+	}
+	keys := []*collh.PV{S("a"), S("b"), S("c"), S("z")}
+	var lists [][]*collh.PV
+	var rec func(l []*collh.PV, d int)
+	rec = func(l []*collh.PV, d int) {
+		lists = append(lists, append([]*collh.PV{}, l...))
+		if d == 3 {
+			return
+		}
+		for _, k := range keys {
+			rec(append(l, k), d+1)
+		}
+	}
+	rec(nil, 0)
+	n := 0
+	for _, hv := range hashes {
+		for _, l := range lists {
+			n++
+			ops := []collh.Op{{Kind: "Lit", P: hv}, {Kind: "Lit", P: A(l...)}, {Kind: "DeleteAll", R: 0, X: 1},
+				{Kind: "Len", R: 2}, {Kind: "Keys", R: 2}}
+			for _, k := range keys[:3] {
+				ops = append(ops, collh.Op{Kind: "Lit", P: k})
+				ops = append(ops, collh.Op{Kind: "Get", R: 2, X: len(ops) - 1})
+			}
+			// the receiver is what it was
+			ops = append(ops, collh.Op{Kind: "Len", R: 0})
+			r.check(ops, n%3 == 0, "deleteall-lists")
+		}
+	}
+	r.res.Extra["coll_deleteall_lists"] = n
+}
+
+// nestedKeys: every sequence of at most 3 operations (each on the result of the previous one) on hashes whose
+// keys are hashes, arrays of hashes, nested arrays and empty collections: put, Delete, Get, Merge, DeleteAll
+// with a key named twice.
+func nestedKeys(r *collRunner) {
+	I, S, A, E, H := collh.In, collh.St, collh.Ar, collh.En, collh.Ha
+	keys := []*collh.PV{H(E(S("a"), I(1))), H(E(S("a"), I(2))), H(), A(), A(H(E(S("a"), I(1)))), A(A(S("a"))),
+		H(E(H(), A()))}
+	var pre []collh.Op
+	lit := func(p *collh.PV) int {
+		pre = append(pre, collh.Op{Kind: "Lit", P: p})
+		return len(pre) - 1
+	}
+	var letters []collh.Op
+	for i, k := range keys {
+		letters = append(letters, collh.Op{Kind: "Add", X: lit(E(k, I(int64(i))))})
+		kx := lit(k)
+		letters = append(letters, collh.Op{Kind: "Delete", X: kx}, collh.Op{Kind: "Get", X: kx})
+	}
+	letters = append(letters,
+		collh.Op{Kind: "Merge", X: lit(H(E(H(), I(8)), E(A(A(S("a"))), I(9)), E(H(E(S("a"), I(1))), I(7))))},
+		collh.Op{Kind: "DeleteAll", X: lit(A(H(), A(), H()))},
+		collh.Op{Kind: "DeleteAll", X: lit(A(H(E(S("a"), I(1))), H(E(S("a"), I(1)))))},
+	)
+	start := lit(H(E(H(E(S("a"), I(1))), S("x")), E(A(), S("y"))))
+	maxLen := 3
+	budget := 300
+	if r.cfg.Thorough() {
+		maxLen = 4
+		budget = 2000
+	}
+	n := 0
+	for l, p := 1, 1; l <= maxLen; l++ {
+		p *= len(letters)
+		n += p
+	}
+	stride := n/budget + 1
+	idx := 0
+	var rec func(ops []collh.Op, last, d int)
+	rec = func(ops []collh.Op, last, d int) {
+		if d > 0 {
+			idx++
+			if d == maxLen || idx%7 == 0 {
+				r.check(ops, idx%stride == 0, "nested-keys")
+			}
+		}
+		if d == maxLen {
+			return
+		}
+		for _, l := range letters {
+			o := l
+			o.R = last
+			next := len(ops)
+			if o.Kind == "Get" {
+				// a lookup does not give a hash: the chain goes on with the receiver
+				rec(append(append([]collh.Op{}, ops...), o), last, d+1)
+				continue
+			}
+			rec(append(append([]collh.Op{}, ops...), o), next, d+1)
+		}
+	}
+	rec(pre, start, 0)
+	r.res.Extra["coll_nested_key_sequences"] = idx
+}
+
+// equalNotIdenticalKeys: keys that are equal (Equals, and - property C07 - the same hash key) without being the
+// same tree: a hash entry and its two element array, two hashes with the same entries in another order.  The Go
+// reference takes no side on these (it flags the history), the model does: these histories are tied with the
+// model only.
+func equalNotIdenticalKeys(r *collRunner) {
+	I, S, A, E, H := collh.In, collh.St, collh.Ar, collh.En, collh.Ha
+	ab := H(E(S("a"), I(1)), E(S("b"), I(2)))
+	ba := H(E(S("b"), I(2)), E(S("a"), I(1)))
+	pairs := [][2]*collh.PV{{E(S("a"), I(1)), A(S("a"), I(1))}, {ab, ba}, {A(ab), A(ba)}, {A(E(S("a"), I(1))), A(A(S("a"), I(1)))}}
+	r.tieAmbiguous = true
+	defer func() { r.tieAmbiguous = false }()
+	n := 0
+	for _, p := range pairs {
+		for swap := 0; swap < 2; swap++ {
+			k1, k2 := p[swap], p[1-swap]
+			base := []collh.Op{{Kind: "Lit", P: H(E(S("x"), I(0)), E(k1, I(1)), E(S("y"), I(2)))}, {Kind: "Lit", P: k2},
+				{Kind: "Lit", P: H(E(S("z"), I(7)), E(k2, I(9)))}, {Kind: "Lit", P: A(k2, S("y"), k2)}, {Kind: "Lit", P: E(k2, I(5))}}
+			for _, o := range []collh.Op{{Kind: "Get", R: 0, X: 1}, {Kind: "Includes", R: 0, X: 1}, {Kind: "Delete", R: 0, X: 1},
+				{Kind: "Merge", R: 0, X: 2}, {Kind: "DeleteAll", R: 0, X: 3}, {Kind: "Add", R: 0, X: 4}, {Kind: "Equals", R: 0, X: 2}} {
+				n++
+				ops := append(append([]collh.Op{}, base...), o)
+				if o.Kind != "Get" && o.Kind != "Includes" && o.Kind != "Equals" {
+					ops = append(ops, collh.Op{Kind: "Keys", R: 5}, collh.Op{Kind: "Get", R: 5, X: 1}, collh.Op{Kind: "Len", R: 5})
+				}
+				r.check(ops, true, "equal-not-identical-keys")
+			}
+			// equality of the collections themselves, and Unique / Delete on arrays
+			n++
+			r.check([]collh.Op{{Kind: "Lit", P: k1}, {Kind: "Lit", P: k2}, {Kind: "Equals", R: 0, X: 1}, {Kind: "Equals", R: 1, X: 0},
+				{Kind: "Lit", P: A(k1, S("q"), k2, k1)}, {Kind: "Unique", R: 4}, {Kind: "Delete", R: 4, X: 1},
+				{Kind: "HashFromArray", R: 4}}, true, "equal-not-identical-keys")
+		}
+	}
+	r.res.Extra["coll_equal_not_identical_key_histories"] = n
 }
